@@ -297,8 +297,30 @@ func c05Property(t *rapid.T) {
 			if s.dir == "" {
 				return
 			}
+			if s.r.V.IsLoggedOn() && rapid.Bool().Draw(t, "discarded-gracefully") {
+				// the engine is stopped the regular way: it sends its Logout and waits; the other side
+				// gets some of what is in flight (perhaps the Logout, perhaps its answer comes back),
+				// and if no answer arrives the wait times out
+				d.absorb(s, s.r.Stop(), "stop")
+				other := d.a
+				if s == d.a {
+					other = d.b
+				}
+				for i, n := 0, rapid.IntRange(0, 8).Draw(t, "frames-after-stop"); i < n; i++ {
+					d.deliver(other)
+					d.deliver(s)
+				}
+				if s.r.V.StateName() == "logout" {
+					d.absorb(s, s.r.Timeout(3), "logout timeout")
+					d.feat["restart-after-an-unanswered-logout"] = true
+				}
+				d.feat["restart-after-stop"] = true
+			}
 			if d.a.r.V.IsConnected() || d.b.r.V.IsConnected() {
 				d.cut(0, 0, true)
+			} else {
+				// both ends have given the connection up: what was still in flight is gone with it
+				d.a.q, d.b.q = nil, nil
 			}
 			s.r.Close()
 			d.newRig(s)
